@@ -202,11 +202,8 @@ fn admitted2(text: &str, kind: &str) -> Result<bool, String> {
             syn::parse2::<syn::Expr>(s).is_ok()
         }
     };
-    if kind == "member" {
-        let whole: TokenStream = format!("__x . {}", text).parse().map_err(|_| "lex".to_string())?;
-        if syn::parse2::<syn::Expr>(whole).is_err() {
-            return Err("not a member access".into());
-        }
+    if kind == "member" && !is_member_access(text) {
+        return Err("not a member access".into());
     }
     if !parses(stream) {
         return Err("does not parse as a whole".into());
@@ -289,15 +286,31 @@ fn expand(text: &str, cfg: &str) -> Class {
         }
     }
 }
+/// Is `<receiver> . <operand>` a postfix chain hanging off the receiver (method calls, fields, indexing, calls, `?`,
+/// `.await`) — i.e. syntactically a member access — rather than e.g. a cast or binary expression that merely
+/// starts with one?
+fn is_member_access(operand: &str) -> bool {
+    fn postfix(e: &syn::Expr) -> bool {
+        match e {
+            syn::Expr::Path(p) => p.path.is_ident("__x"),
+            syn::Expr::MethodCall(m) => postfix(&m.receiver),
+            syn::Expr::Field(f) => postfix(&f.base),
+            syn::Expr::Await(a) => postfix(&a.base),
+            syn::Expr::Try(t) => postfix(&t.expr),
+            syn::Expr::Index(i) => postfix(&i.expr),
+            syn::Expr::Call(c) => postfix(&c.func),
+            _ => false,
+        }
+    }
+    format!("__x . {}", operand).parse::<TokenStream>().ok().and_then(|t| syn::parse2::<syn::Expr>(t).ok()).map(|e| postfix(&e)).unwrap_or(false)
+}
+
 /// Are all `..`/`>.` operands of the parsed input syntactically member accesses?
 fn dots_are_members(text: &str) -> bool {
     match catch_unwind(AssertUnwindSafe(|| syn::parse_str::<JoinInputDefault>(text))) {
         Ok(Ok(j)) => j.branches.iter().all(|b| {
             b.members().iter().all(|m| match m.expr() {
-                ActionExpr::Process(ProcessExpr::Dot([e])) => {
-                    let s = format!("__x . {}", e.to_token_stream());
-                    s.parse::<TokenStream>().ok().map(|t| syn::parse2::<syn::Expr>(t).is_ok()).unwrap_or(false)
-                }
+                ActionExpr::Process(ProcessExpr::Dot([e])) => is_member_access(&e.to_token_stream().to_string()),
                 _ => true,
             })
         }),
